@@ -187,6 +187,33 @@ def all_units():
 # extraction + assembly
 # ---------------------------------------------------------------------------------------------
 
+_crate_dirs = {}
+
+
+def crate_dir(name):
+    """source directory of the locked version of a dependency (from /repo/Cargo.lock + the local cargo registry)"""
+    if name in _crate_dirs:
+        return _crate_dirs[name]
+    ver = None
+    try:
+        lock = open(os.path.join(REPO, "Cargo.lock")).read()
+        m = re.search(r'name = "%s"\nversion = "([^"]+)"' % re.escape(name), lock)
+        if m:
+            ver = m.group(1)
+    except Exception:
+        pass
+    import glob
+    cands = glob.glob(os.path.expanduser("~/.cargo/registry/src/*/%s-%s" % (name, ver or "*")))
+    if not cands:
+        raise Undecided("lost anchor: source of dependency %s %s not found in the local cargo registry" % (name, ver))
+    _crate_dirs[name] = sorted(cands)[-1]
+    return _crate_dirs[name]
+
+
+def expand_crate_paths(s):
+    return re.sub(r"\$CRATE\{([^}]+)\}", lambda m: crate_dir(m.group(1)), s)
+
+
 def call_extract(req):
     if not os.path.exists(EXTRACT):
         raise Undecided("tool error: %s not built (run MANIFEST.setup_cmd)" % EXTRACT)
@@ -397,7 +424,7 @@ def assemble(unit, twin=False):
     items = []
     for s in unit.sections:
         if s.kind == "type":
-            it = {"kind": "type", "file": s.file, "name": s.name}
+            it = {"kind": "type", "file": expand_crate_paths(s.file), "name": s.name}
             it.update(s.opts)
             items.append(it)
         elif s.kind == "strtable":
